@@ -55,12 +55,33 @@ CHECKS = {
         "note": "Trusted: Coq kernel (coqc 8.16.1, vm_compute; no axioms: every Print Assumptions is closed); the correspondence harness (Go harness mounted with -overlay, Python driver, checksum comparison of result + complete stored state after every step); store methods are treated as atomic steps (one mutex / one SQLite transaction on one pooled connection) and histories are sequential; the SQLite engine itself; Postgres backend cannot run here (read only). Payload/headers/trace are opaque handles in this model. Nondeterministic choices of the store (which ready messages a dequeue picks, generated ids, victims among equally old messages) are oracle inputs validated by the model, not predicted. The HTTP/MCP request parsing in front of the store (id-list caps, unknown fields) is not modelled in this revision.",
         "technique": "Coq proof + per-step differential correspondence with both real stores",
     },
+    "C08": {
+        "category": "proof",
+        "text": "Coq theorems (Properties/C08.v, parametric in sha256/hmac as Section variables): HMAC verification is characterised by an iff (three headers present after trimming, ParseInt grammar, |now-ts| <= tolerance, nonce admitted, even-length non-empty hex of either case, signature = HMAC over ts\\nmethod\\ncleaned-path\\nhex(sha256 body) under a secret valid at the signed timestamp or an inline secret); every 202 of the handler model implies the route's authentication succeeded (basic: configured user with exactly its password; forward: the service answered 2xx); every failure answers 401 / 401,403,503 and enqueues nothing (fan-out prefix stated); an accepted tampered request needs an HMAC/SHA-256/hex collision; the compile rules for auth blocks. Tied to the code by raw-socket requests against the real ingress.Server wired by the real loadAuth from Parse/Compile output, a scripted forward-auth service, every single-field and single-bit mutation of valid signed requests, clock offsets at ts+-tol+-1ns, rotating secret windows; status and queue delta compared with the model; the Gallina SHA-256/HMAC oracle compared with Go on every input.",
+        "design_ref": "DESIGN.md section 5 C08, docs/notes/C08.md",
+        "note": "Trusted: Coq kernel; net/http parsing, crypto/hmac, crypto/sha256, strconv, encoding/hex (compared value by value with their Gallina twins on generated inputs, not proved); the harness. Assumes tolerance < 2^63-1 ns (Time.Sub saturates). The Gallina Sha256/Hmac functions are a test oracle, theorems are parametric.",
+        "technique": "Coq proof (parametric in the hash functions) + differential run of the real ingress handler on mutated signed requests",
+    },
+    "C09": {
+        "category": "proof",
+        "text": "Coq theorems (Properties/C09.v): for every history of Verify calls, reloads (including routes dropped and re-added) and other requests with a non-decreasing clock, a nonce accepted once is refused for as long as its signed timestamp passes the tolerance check (no_double_accept, replay_never_twice by an invariant over the cache), reload inheritance keeps nonces, and k concurrent identical requests admit exactly one (each admit is one atomic step: clock reading, tolerance test, clean-up, lookup, insert under the cache lock). The enlarged-tolerance-after-clean-up case is REFUTED with a witness and listed as a known finding. Tied to the code by white-box histories through the real HMACAuth.Verify with injected clock (1 ns steps around both window edges, thousands of interleaved nonces), black-box scenarios through the real runtimeState.reloadConfig + ingress.Server, 32 goroutines replaying one request, a deterministic blocked-clock schedule; the executable predicate P_C09 is evaluated on every implementation trace.",
+        "design_ref": "DESIGN.md section 5 C09, docs/notes/C09.md",
+        "note": "Known finding (known_findings.jsonl): reload-tolerance-grown-after-cleanup. Trusted: Coq kernel; sync.Mutex atomicity; monotone clock is an explicit hypothesis of the theorems; the harness.",
+        "technique": "Coq proof over histories (cache invariant) + white-box and black-box differential replay histories",
+    },
     "C18": {
         "category": "proof",
         "text": "Coq theorems (Properties/C18.v): a failed reload (read/parse/compile/restart-required/secret loading) leaves the runtime record unchanged for arbitrary external behaviours; the reload publishes all fields in one write so every reachable runtime state is uniformly one version (single-write theorem, after fix 337ce64); per-request atomicity is REFUTED for the code's separately locked per-request reads (witness schedules) and PROVED for a one-snapshot design; a verified checker replace_ok of file-system traces is sound for every crash prefix and persistence choice (content is OLD or NEW); mutation validation/rollback model. Tied to the code by running the real reloadConfig with injected failures and fingerprinting 98 decisions before/after, by forcing reloads between every pair of per-request accessors on the real runtimeState/ingress.Server, by strace traces of the real writeFileAtomic (app and mcp) fed to replace_ok plus SIGKILL at every syscall, and by failure injection into the real config mutations.",
         "design_ref": "DESIGN.md section 5 C18, docs/notes/C18.md",
         "note": "Known findings (known_findings.jsonl): 11 pairs of per-request accessors between which a completed reload yields a mixed-configuration request; printed as KNOWN-FINDING. Trusted: Coq kernel; strace trace parser; the file-system semantics of Model/FsAtomic.v (atomic rename, fsync durability); source lint comparing accessor/lock structure with the model. Admin and gRPC handlers are covered by the decision fingerprint and the model theorems only.",
         "technique": "Coq proof (frame, single-write, verified fs-trace checker) + schedule-forcing differential run + syscall-trace validation",
+    },
+    "C19": {
+        "category": "proof",
+        "text": "What is a theorem (all rune sequences, unbounded): the spelling layer - quote_string/next_token round trip, every identifier token the lexer can produce is identifier-shaped, identifier-shaped text followed by a delimiter lexes back as one identifier, a lexer-produced value formatted by format_value and re-lexed is the same token with the same quotedness (token-level idempotence), route paths likewise, a quoted value never lexes as an identifier and a keyword-valued value keeps its quotedness, a whole line of formatted values lexes back to exactly those tokens; the formatter's 'unquoted-safe' test is refuted for brace-led values with the argument why the parser never produces them. What is NOT a theorem: the directive layer (recursive-descent parser, write* functions of the formatter, Compile) - it is decided by differential equivalence: for generated and corpus programs t that parse, Format(Parse t) parses, Compile(Parse t) and Compile(Parse(Format(Parse t))) are deep-equal incl. errors/warnings, and Format is idempotent. The Coq lexer and helpers are compared with the Go ones on every text.",
+        "design_ref": "DESIGN.md section 5 C19, docs/notes/C19.md",
+        "note": "Only the lexer/quoting layer is proved; the claim for the directive layer rests on grammar-directed differential testing (196 of 196 directive kinds exercised; distribution in the evidence). Trusted: Coq kernel; encoding of Go strings as DecodeRuneInString step sequences; the generator's grammar table (lib/hkgrammar.py); LexerGlue.v uses primitive Uint63 only to ship inputs (no theorem depends on it).",
+        "technique": "Coq proof of the lexer/formatter spelling layer + differential Parse/Format/Compile equivalence on generated programs",
     },
     "C20": {
         "category": "proof",
